@@ -297,6 +297,9 @@ func (h *robustHarness) Run(t *testing.T, ci any) *Outcome {
 	for k, n := range er.fired {
 		o.stat("fault_"+k, int64(n))
 	}
+	for k, n := range er.probes {
+		o.stat("probe_"+k, int64(n))
+	}
 	if er.res.Hazard != "" {
 		return infra("scheduler hazard: %s", er.res.Hazard)
 	}
